@@ -11,9 +11,44 @@ import (
 
 const (
 	fTorrentControls = "lib/torrent/scheduler.state.torrentControls"
-	fCtrlErrors      = "lib/torrent/scheduler.torrentControl.errors"
 	pkgSched         = "lib/torrent/scheduler"
 )
+
+// fCtrlErrors is the waiter list of a torrent control. It is found by its type —
+// the one field of torrentControl that is a slice of error channels — so that a
+// rename of the field does not move the anchor; the declared name is the fallback.
+var fCtrlErrors = "lib/torrent/scheduler.torrentControl.errors"
+
+func resolveWaitersField(c *Ctx) string {
+	p := c.PkgByID[K+"/"+pkgSched]
+	if p == nil || p.Types == nil {
+		return fCtrlErrors
+	}
+	obj := p.Types.Scope().Lookup("torrentControl")
+	if obj == nil {
+		return fCtrlErrors
+	}
+	st, ok := obj.Type().Underlying().(*types.Struct)
+	if !ok {
+		return fCtrlErrors
+	}
+	var found []string
+	for i := 0; i < st.NumFields(); i++ {
+		sl, isSl := st.Field(i).Type().Underlying().(*types.Slice)
+		if !isSl {
+			continue
+		}
+		ch, isCh := sl.Elem().Underlying().(*types.Chan)
+		if !isCh || ch.Elem().String() != "error" {
+			continue
+		}
+		found = append(found, pkgSched+".torrentControl."+st.Field(i).Name())
+	}
+	if len(found) == 1 {
+		return found[0]
+	}
+	return fCtrlErrors
+}
 
 func init() { register("C17", checkC17) }
 
@@ -40,6 +75,45 @@ func notifyLoops(fn *ssa.Function) []*RangeLoop {
 	return out
 }
 
+// notifyCalls returns the calls in fn to a function of the same package that
+// itself notifies every waiter on every path: it contains a notify loop (see
+// notifyLoops) that has completed before each of its returns.
+func notifyCalls(fn *ssa.Function) []ssa.CallInstruction {
+	var out []ssa.CallInstruction
+	for _, cs := range callsIn(fn) {
+		sf := cs.Instr.Common().StaticCallee()
+		if sf == nil || sf.Pkg != fn.Pkg || sf == fn || len(sf.Blocks) == 0 {
+			continue
+		}
+		if _, isGo := cs.Instr.(*ssa.Go); isGo {
+			continue
+		}
+		if _, isDefer := cs.Instr.(*ssa.Defer); isDefer {
+			continue
+		}
+		loops := notifyLoops(sf)
+		if len(loops) == 0 {
+			continue
+		}
+		always := true
+		for _, ret := range returnsOf(sf) {
+			done := false
+			for _, l := range loops {
+				if l.completedBefore(ret) {
+					done = true
+				}
+			}
+			if !done {
+				always = false
+			}
+		}
+		if always {
+			out = append(out, cs.Instr)
+		}
+	}
+	return out
+}
+
 func isMapDeleteOn(in ssa.Instruction, field string) bool {
 	c, ok := in.(*ssa.Call)
 	if !ok {
@@ -53,6 +127,7 @@ func isMapDeleteOn(in ssa.Instruction, field string) bool {
 }
 
 func checkC17(c *Ctx, r *Report) {
+	fCtrlErrors = resolveWaitersField(c)
 	r.Explain = "Structural necessary conditions of 'every Download returns exactly once': (R1) every removal of a torrent control, the completion event and the shutdown path are dominated by a loop that sends on every waiter channel; (R2) a new-torrent event delivers its channel exactly once on every path (immediate send XOR registration as waiter); (R3) the request channel is buffered and received exactly once; (R4) the completion notice is raised once, only for a complete torrent; (R5) the scheduler state is confined to the event loop, so R1-R4 quantify over all orders of applied events; (R6) a control is overwritten only when absent;"
 	r.NotDecided = "That the event loop itself makes progress (liveness of the goroutine), and that 'success' coincides with the blob being in the cache (delegated to C03)."
 	r.Trusted = append(r.Trusted, "sync.Once.Do runs its argument at most once", "a buffered channel of capacity>=1 accepts one send without a receiver")
@@ -71,6 +146,11 @@ func checkC17(c *Ctx, r *Report) {
 				ok := false
 				for _, l := range notifyLoops(fn) {
 					if l.completedBefore(in) {
+						ok = true
+					}
+				}
+				for _, nc := range notifyCalls(fn) {
+					if precedes(nc, in) {
 						ok = true
 					}
 				}
@@ -134,6 +214,11 @@ func checkC17(c *Ctx, r *Report) {
 							ok = true
 						}
 					}
+					for _, nc := range notifyCalls(apply) {
+						if precedes(nc, ret) {
+							ok = true
+						}
+					}
 					r.Check(ok, r1, apply, "completion-event return (control found)", ret,
 						"found-control path notifies every waiter before returning",
 						"the completion event returns on the found-control path without having sent to every waiter in ctrl.errors")
@@ -143,9 +228,20 @@ func checkC17(c *Ctx, r *Report) {
 				}
 				// R8: identity guard against stale completion events
 				r8 := r.Rule("R8", "E-GUARD", "the completion event notifies waiters only if the control found by info hash still holds the dispatcher that completed (identity comparison), so a stale event cannot answer a re-added torrent's waiters", 1)
+				type notifyPoint struct {
+					blk *ssa.BasicBlock
+					at  ssa.Instruction
+				}
+				var points []notifyPoint
 				for _, l := range loops {
+					points = append(points, notifyPoint{l.Header, l.Header.Instrs[0]})
+				}
+				for _, nc := range notifyCalls(apply) {
+					points = append(points, notifyPoint{nc.Block(), nc})
+				}
+				for _, np := range points {
 					ok := false
-					for _, cf := range dominatingConds(l.Header) {
+					for _, cf := range dominatingConds(np.blk) {
 						cond, val := stripNot(cf.Cond, cf.Val)
 						b, isB := cond.(*ssa.BinOp)
 						if !isB || !(b.Op == token.EQL && val || b.Op == token.NEQ && !val) {
@@ -159,7 +255,7 @@ func checkC17(c *Ctx, r *Report) {
 							ok = true
 						}
 					}
-					r.Check(ok, r8, apply, "completion notify loop", l.Header.Instrs[0], "guarded by dispatcher identity",
+					r.Check(ok, r8, apply, "completion notify loop", np.at, "guarded by dispatcher identity",
 						"waiters of the control found by info hash are answered with success without checking that it is the dispatcher that completed: a stale event completes a re-added, incomplete torrent")
 				}
 			}
@@ -180,6 +276,17 @@ func checkC17(c *Ctx, r *Report) {
 				// the inner loop must run on every outer iteration: its header dominates outer latch
 				in := l.Header.Instrs[0]
 				if outer.everyIteration(in) && l.derivesFromOuter(outer) {
+					ok = true
+				}
+			}
+			for _, nc := range notifyCalls(fn) {
+				uses := false
+				for _, a := range nc.Common().Args {
+					if outer.derivesFromElem(a) {
+						uses = true
+					}
+				}
+				if outer.everyIteration(nc) && uses {
 					ok = true
 				}
 			}
